@@ -6,7 +6,7 @@ import procgen as pg
 import hvgen
 
 PROP_MODULES = ["HvsrVerif.Props.C13", "HvsrVerif.Props.C13Norm"]
-BRIDGE_MODULES = ["HvsrVerif.Bridge.C13"]
+BRIDGE_MODULES = ["HvsrVerif.Bridge.C13", "HvsrVerif.Bridge.PyTimeRej"]
 COMPS = ["ns", "ew", "vt"]
 
 
